@@ -399,6 +399,28 @@ func streams(c *mon.Ctx, count int) {
 				}
 			}
 		}
+		// walk 4: the whole stream sits in a *bytes.Buffer handed to the codec as it is (the source type the
+		// compressors special-case); after each frame the buffer must hold exactly the frames not yet read
+		{
+			bb := bytes.NewBuffer(append(make([]byte, 0, len(all)+8), all...))
+			off := 0
+			for j := 0; j < k; j++ {
+				f4, err := codec.DecodeFrame(bb)
+				if err != nil {
+					c.Violation("stream/DecodeFrame-bytes.Buffer/error", det(err.Error(), j))
+					return
+				}
+				off += lens[j]
+				if len(all)-bb.Len() != off {
+					c.Violation("stream/DecodeFrame-bytes.Buffer/consumed", det(fmt.Sprintf("consumed %d bytes after frame %d, frames end at %d", len(all)-bb.Len(), j, off), j))
+					return
+				}
+				if a4, _, err4 := bridge.FromLib(f4); err4 != nil || !ref.Equal(want[j], a4) {
+					c.Violation("stream/DecodeFrame-bytes.Buffer/frame-differs", det(fmt.Sprintf("%v %s", err4, ref.Diff(want[j], a4)), j))
+					return
+				}
+			}
+		}
 		c.Count("streams_ok", 1)
 		c.Count("stream_frames", int64(k))
 		c.Distinct(fmt.Sprintf("stream|%v|%s|%d", v, comp, k))
